@@ -24,6 +24,7 @@ ASSUMPTIONS = [
     "image (24,24,24) (thorough: also (30,26,22)); Gaussian particles of sigma 1.5 px on sites at least 7 px apart and 4 px from the border, some next to chunk seams",
     "a pick matches a particle when it lies within 1 px * scale of it; dask results are compared with the numpy result as sets of (position within 1 px, rotation)",
     "template matcher: asymmetric analytic template of 9^3 voxels, three searched rotations, particles planted at each searched rotation",
+    "added during the seeding waves: single-slice images, sub-pixel min_distance, 343 rotations, scales 0.5 / 2, a periodic template (side lobes) / a flat template (5,17,15) / an even template (6,6,6) across chunk seams, call histories on one picker",
 ]
 
 SITES = [(5, 5, 5), (5, 13, 18), (13, 5, 18), (18, 18, 5), (12, 12, 11), (11, 19, 13), (19, 6, 11), (5, 12, 7)]
